@@ -396,20 +396,23 @@ pub struct Variant {
     /// C05: the world is ready as soon as the daemon answers on its observation socket and has run for 1.5 s, in
     /// whatever states (the case itself judges them)
     pub lenient_establish: bool,
+    /// configured log sync interval of both ports (C12, odd workers: -4, i.e. twice the announce rate; else that of
+    /// the announce interval)
+    pub sync_log: i8,
 }
 
 impl Variant {
     pub fn from_index(first: u64, prop: &str) -> Variant {
         let alt = (first / 4) % 2 == 1;
         let other_domain = first % 3 == 1;
-        Variant { path_trace: first % 2 == 1, udp: (first / 2) % 2 == 1, swap: alt && prop != "C12" && prop != "C06" && prop != "C09" && prop != "C08", p2p: (alt && (prop == "C12" || prop == "C09")) || prop == "C14", sdo: if other_domain { 0x1a5 } else { 0 }, domain: if other_domain { 7 } else { 0 }, alt, aml: (prop == "C14" || prop == "C07") && first % 2 == 1, long_timeout: prop == "C14", slow_other_port: prop == "C06" && alt, asym_ns: if prop == "C09" { [0i64, -2_000_000, 1_500_000, 12_345_678][(first % 4) as usize] } else { 0 }, own_p1: if prop == "C05" { [128u8, 127, 129, 128][(first % 4) as usize] } else { 128 }, own_p2: if prop == "C05" { [128u8, 128, 127, 129][(first % 4) as usize] } else { 128 }, slave_only: prop == "C08" && alt && first % 2 == 0, master_only: if prop == "C08" && alt { [None, Some('b'), Some('b'), Some('a')][(first % 4) as usize] } else if prop == "C07" && alt { Some('b') } else { None }, empty_aml_a: prop == "C05" && first % 8 >= 6, lenient_establish: prop == "C05" }
+        Variant { path_trace: first % 2 == 1, udp: (first / 2) % 2 == 1, swap: alt && prop != "C12" && prop != "C06" && prop != "C09" && prop != "C08", p2p: (alt && (prop == "C12" || prop == "C09")) || prop == "C14", sdo: if other_domain { 0x1a5 } else { 0 }, domain: if other_domain { 7 } else { 0 }, alt, aml: (prop == "C14" || prop == "C07") && first % 2 == 1, long_timeout: prop == "C14", slow_other_port: prop == "C06" && alt, asym_ns: if prop == "C09" { [0i64, -2_000_000, 1_500_000, 12_345_678][(first % 4) as usize] } else { 0 }, own_p1: if prop == "C05" { [128u8, 127, 129, 128][(first % 4) as usize] } else { 128 }, own_p2: if prop == "C05" { [128u8, 128, 127, 129][(first % 4) as usize] } else { 128 }, slave_only: prop == "C08" && alt && first % 2 == 0, master_only: if prop == "C08" && alt { [None, Some('b'), Some('b'), Some('a')][(first % 4) as usize] } else if prop == "C07" && alt { Some('b') } else { None }, empty_aml_a: prop == "C05" && first % 8 >= 6, lenient_establish: prop == "C05", sync_log: if prop == "C12" && first % 2 == 1 { ANN_LOG - 1 } else { ANN_LOG } }
     }
     pub fn index(&self) -> u64 {
         self.path_trace as u64 + 2 * self.udp as u64 + 4 * self.alt as u64
     }
     pub fn from_render(v: &Value, prop: &str) -> Variant {
         let alt = v["variant_alt"].as_bool().unwrap_or(false);
-        let mut var = Variant { path_trace: v["path_trace"].as_bool().unwrap_or(false), udp: v["transport"].as_str() == Some("udp-ipv4"), swap: alt && prop != "C12" && prop != "C06" && prop != "C09" && prop != "C08", p2p: (alt && (prop == "C12" || prop == "C09")) || prop == "C14", sdo: 0, domain: 0, alt, aml: false, long_timeout: prop == "C14", slow_other_port: prop == "C06" && alt, asym_ns: 0, own_p1: 128, own_p2: 128, slave_only: false, master_only: None, empty_aml_a: false, lenient_establish: prop == "C05" };
+        let mut var = Variant { path_trace: v["path_trace"].as_bool().unwrap_or(false), udp: v["transport"].as_str() == Some("udp-ipv4"), swap: alt && prop != "C12" && prop != "C06" && prop != "C09" && prop != "C08", p2p: (alt && (prop == "C12" || prop == "C09")) || prop == "C14", sdo: 0, domain: 0, alt, aml: false, long_timeout: prop == "C14", slow_other_port: prop == "C06" && alt, asym_ns: 0, own_p1: 128, own_p2: 128, slave_only: false, master_only: None, empty_aml_a: false, lenient_establish: prop == "C05", sync_log: ANN_LOG };
         // sdoId / domain are a function of the worker index
         let again = Variant::from_index(var.index(), prop);
         var.sdo = again.sdo;
@@ -420,6 +423,7 @@ impl Variant {
         var.own_p2 = again.own_p2;
         var.slave_only = again.slave_only;
         var.empty_aml_a = again.empty_aml_a;
+        var.sync_log = again.sync_log;
         var.master_only = again.master_only;
         var
     }
@@ -533,7 +537,7 @@ impl World {
         let dir = std::env::temp_dir().join(format!("vcheck-e2e-{}-{}", std::process::id(), GEN.fetch_add(1, std::sync::atomic::Ordering::Relaxed)));
         std::fs::create_dir_all(&dir).map_err(|e| e.to_string())?;
         let cfg = format!(
-            "loglevel = \"{ll}\"\nsdo-id = {sdo}\ndomain = {dom}\npriority1 = {p1}\npriority2 = {p2}\nidentity = \"001b19aa0001beef\"\nvirtual-system-clock = true\npath-trace = {}\n{inst}\n[[port]]\ninterface = \"a0\"\nnetwork-mode = \"{nm}\"\nhardware-clock = \"none\"\nannounce-interval = {l}\nsync-interval = {l}\ndelay-interval = -2\ndelay-mechanism = \"{dm}\"\n{aml}{xa}\n[[port]]\ninterface = \"b0\"\nnetwork-mode = \"{nm}\"\nhardware-clock = \"none\"\nannounce-interval = {lb}\nsync-interval = {l}\ndelay-interval = -2\ndelay-mechanism = \"{dm}\"\n{aml}{xb}\n[observability]\nobservation-path = \"{}\"\n",
+            "loglevel = \"{ll}\"\nsdo-id = {sdo}\ndomain = {dom}\npriority1 = {p1}\npriority2 = {p2}\nidentity = \"001b19aa0001beef\"\nvirtual-system-clock = true\npath-trace = {}\n{inst}\n[[port]]\ninterface = \"a0\"\nnetwork-mode = \"{nm}\"\nhardware-clock = \"none\"\nannounce-interval = {l}\nsync-interval = {sl}\ndelay-interval = -2\ndelay-mechanism = \"{dm}\"\n{aml}{xa}\n[[port]]\ninterface = \"b0\"\nnetwork-mode = \"{nm}\"\nhardware-clock = \"none\"\nannounce-interval = {lb}\nsync-interval = {sl}\ndelay-interval = -2\ndelay-mechanism = \"{dm}\"\n{aml}{xb}\n[observability]\nobservation-path = \"{}\"\n",
             path_trace,
             dir.join("obs.sock").display(),
             l = ANN_LOG,
@@ -544,6 +548,7 @@ impl World {
             dom = variant.domain,
             p1 = variant.own_p1,
             p2 = variant.own_p2,
+            sl = variant.sync_log,
             inst = if variant.slave_only { "slave-only = true\n" } else { "" },
             xa = format!("{}{}", if variant.master_only == Some(if variant.swap { 'b' } else { 'a' }) { "master-only = true\n" } else { "" }, if variant.empty_aml_a && !variant.swap { "acceptable-master-list = []\n" } else { "" }),
             xb = format!("{}{}", if variant.master_only == Some(if variant.swap { 'a' } else { 'b' }) { "master-only = true\n" } else { "" }, if variant.empty_aml_a && variant.swap { "acceptable-master-list = []\n" } else { "" }),
@@ -1730,7 +1735,8 @@ pub fn case_c12(w: &mut World, t: &mut Tape) -> E2eOut {
         }
     };
     rate_check("Announce of the master port", count(w, 'b', T_ANNOUNCE), ANN_MS as f64, &mut out);
-    rate_check("Sync of the master port", count(w, 'b', T_SYNC), ANN_MS as f64, &mut out);
+    let sync_ms = 1000.0 * 2f64.powi(w.variant.sync_log as i32);
+    rate_check("Sync of the master port", count(w, 'b', T_SYNC), sync_ms, &mut out);
     if w.variant.p2p {
         // the slave port measures the link at the configured delay interval (2^-2 s); statime arms the delay request
         // timer only when a port becomes slave, so a master port that never was slave sends none (not asserted)
@@ -1767,7 +1773,7 @@ pub fn case_c12(w: &mut World, t: &mut Tape) -> E2eOut {
         let el2 = f0.elapsed().as_millis() as f64;
         for (name, ty) in [("Announce", T_ANNOUNCE), ("Sync", T_SYNC)] {
             let got = count(w, 'b', ty);
-            let nominal = el2 / ANN_MS as f64;
+            let nominal = el2 / if ty == T_SYNC { sync_ms } else { ANN_MS as f64 };
             if got < (0.6 * nominal - 1.0).floor() {
                 out.fail(format!("daemon: {} of the master port does not resume at the configured rate after its link was down", name), format!("{} in {} ms (nominal {:.1}) after {} ms link down ; {}", got, el2, nominal, down_ms, rendered));
             }
@@ -3811,6 +3817,7 @@ pub fn worker_main(args: &[String]) -> i32 {
             o.insert("own_priority1".into(), json!(variant.own_p1));
             o.insert("own_priority2".into(), json!(variant.own_p2));
             o.insert("slave_only".into(), json!(variant.slave_only));
+            o.insert("log_sync_interval".into(), json!(variant.sync_log));
             o.insert("empty_acceptable_master_list_on_first_segment".into(), json!(variant.empty_aml_a));
             o.insert("master_only_port_on_segment".into(), json!(variant.master_only.map(|c| c.to_string())));
         }
